@@ -197,6 +197,12 @@ def gen_problem(rng, harmonic=None, size_nodes=60, force=None):
             lab.update(circuit=c_par2 if ncoil else c_par, turns=1)
             feats.append("solid-conductor")
             ncoil += 1
+            if harmonic and rng.random() < 0.6:
+                # a prescribed-A point on a corner of a solid conductor that belongs to a current-driven circuit:
+                # the fixed node is coupled to the circuit's extra unknown (its voltage gradient)
+                ppA = B.prop("pointprops", name="ptAc%d" % k, A_re=rng.choice([1e-4, -3e-4]), A_im=rng.choice([0.0, 5e-5]))
+                B.point(bx0, by0, prop=ppA)
+                feats.append("fixed-node-on-circuit-conductor")
         elif kind == "jblock":
             m = copper("jblk%d" % k, sigma=(rng.choice([0.0, 58.0]) if harmonic else 0.0), J=rng.choice([1.0, -2.5, 0.3]))
             feats.append("jblock")
